@@ -41,6 +41,9 @@ def c03(tier):
                      defines=['NWRITES=1', 'NREADS=1'], timeout=900))
         qs.append(mk('lr_w1_w1_r1_R3_o201', 'c03_lr.cpp', [('W1', 'vp_writer'), ('W2', 'vp_writer'), R1], 3, order=(2, 0, 1), final='vp_final', cover=3,
                      defines=['NWRITES=1', 'NREADS=1'], timeout=900))
+        # "every behaviour the memory model allows for the chosen memory orders": the same scenario under the happens-before / stale-read monitor (see C07)
+        qs.append(mk('hb_lr_w1_r1_R3', 'c03_lr.cpp', [W, R1], 3, final='vp_final', cover=3, defines=['NWRITES=1', 'NREADS=1'],
+                     opts={'hb': True, 'yield_blocks': True}, timeout=1500))
     else:
         for o in orders(3, 'all'):
             qs.append(mk('lr_w2_r1_r1_R4_o' + ''.join(map(str, o)), 'c03_lr.cpp', [W, R1, R2], 4, order=o, final='vp_final', cover=3,
@@ -48,6 +51,11 @@ def c03(tier):
         qs.append(mk('lr_w2_r2_r2_R3', 'c03_lr.cpp', [W, R1, R2], 3, final='vp_final', cover=3, defines=['NWRITES=2', 'NREADS=2'], timeout=2400))
         qs.append(mk('lr_w1_w1_r2_R3', 'c03_lr.cpp', [('W1', 'vp_writer'), ('W2', 'vp_writer'), R1], 3, final='vp_final', cover=3,
                      defines=['NWRITES=1', 'NREADS=2'], timeout=2400))
+        for od in orders(3, 'all'):
+            qs.append(mk('lr_w1_w1_r1_R4_o' + ''.join(map(str, od)), 'c03_lr.cpp', [('W1', 'vp_writer'), ('W2', 'vp_writer'), R1], 4, order=od, final='vp_final', cover=3,
+                         defines=['NWRITES=1', 'NREADS=1'], timeout=2400))
+        qs.append(mk('hb_lr_w1_r1_R3', 'c03_lr.cpp', [W, R1], 3, final='vp_final', cover=3, defines=['NWRITES=1', 'NREADS=1'],
+                     opts={'hb': True, 'yield_blocks': True}, timeout=3000))
     return qs
 
 
@@ -518,7 +526,12 @@ def c19(tier):
         qs.append(mk('trip_explicit_mv2_owner_other_R3', 'c19_tripwire.cpp', [O, X], 3, final='vp_final', cover=3, defines=['LINEKIND=1', 'MV=2'],
                      opts=o, unwind=4, checks='pointer', timeout=900))
         qs.append(mk('trip_indexed_seq', 'c19_tripwire.cpp', [], 1, seq=['vp_seq'], cover=1, defines=['LINEKIND=3'], unwind=4, checks='pointer'))
+        # publication clause under the happens-before monitor (same query as in C07)
+        qs.append(mk('hb_trip_explicit_mv0_R3', 'c19_tripwire.cpp', [O, D], 3, final='vp_final', cover=3, defines=['LINEKIND=1', 'MV=0'],
+                     opts=dict(o, hb=True), unwind=4, checks='pointer', must_cover=4, timeout=900))
     else:
+        qs.append(mk('hb_trip_explicit_mv1_R3', 'c19_tripwire.cpp', [O, D], 3, final='vp_final', cover=3, defines=['LINEKIND=1', 'MV=1'],
+                     opts=dict(o, hb=True), unwind=4, checks='pointer', must_cover=4, timeout=3000))
         for kn, k in kinds.items():
             for od in orders(3, 'all')[:3]:
                 qs.append(mk(f'trip_{kn}_R3_o' + ''.join(map(str, od)), 'c19_tripwire.cpp', [O, D, X], 3, order=od, final='vp_final', cover=3,
@@ -680,10 +693,13 @@ def c06(tier):
               '@_ZN4gmlc10libguarded11type_runner*', '@_ZNSt13packaged_task*', '@_ZNSt12_Vector_base*']
         def cq(name, threads, defines, order, cover):
             return mk(name, 'c06_deferred.cpp', threads, 2, order=order, final='vp_final', cover=cover, defines=defines,
-                      opts={'yield_blocks': False, 'noinline': NI}, cflags=STUB, unwindset=EU, unwind=4, timeout=3400, solvers=('minisat', 'kissat'))
+                      opts={'yield_blocks': False, 'noinline': NI}, cflags=STUB, unwindset=EU, unwind=4, timeout=3400, solvers=('minisat', 'kissat'),
+                      object_bits=12)
         qs.append(cq('deferred_detach_reader_R2', [S1, Rd], ['NSUB1=1', 'NSUB2=0', 'KIND1=0'], (0, 1), 5))
         qs.append(cq('deferred_reader_detach_R2', [S1, Rd], ['NSUB1=1', 'NSUB2=0', 'KIND1=0'], (1, 0), 5))
         qs.append(cq('deferred_detach_detach_R2', [S1, S2], ['NSUB1=1', 'NSUB2=1', 'KIND1=0', 'KIND2=0'], (0, 1), 3))
+        # a reader that releases and re-acquires (second acquisition drains) against a submitter whose first call is queued and second is direct
+        qs.append(cq('deferred_reader2_detach2_R2', [S1, Rd], ['NSUB1=2', 'NSUB2=0', 'KIND1=0', 'KIND1B=0', 'READER_TRY'], (1, 0), 5))
     return qs
 
 
